@@ -23,6 +23,8 @@ Reasons(e) ==
     IN  {<<"differs-between-runs", s, f.config, e.config>> : s \in {t \in DOMAIN e.digests : e.digests[t] # f.digests[t]}}
         \* the same search repeated inside one process, in rayon pools of 1, 2, 3, 5 and 8 threads
         \cup (IF ~e.repeat_stable THEN {<<"search-differs-between-repetitions", e.config>>} ELSE {})
+        \* an edit that changes no text (every note sent again by didChange) changes no document-symbol listing
+        \cup (IF "resend_changes_symbols" \in DOMAIN e /\ e.resend_changes_symbols THEN {<<"document-symbols-depend-on-edit-history", e.config>>} ELSE {})
 
 Step == /\ l <= Len(Rec) /\ l' = l + 1
         /\ LET e == Rec[l] IN
